@@ -432,3 +432,53 @@ func TestIPPRoundTrip(t *testing.T) {
 		}
 	})
 }
+
+// Several IPP requests at the same time: every client must get the reply to ITS request.
+type ippConcCase struct {
+	Cases []ippCase `json:"requests"`
+}
+
+func checkIPPConcurrent(c ippConcCase) error {
+	errs := make(chan error, len(c.Cases))
+	for _, one := range c.Cases {
+		go func(one ippCase) { errs <- checkIPP(one, 0) }(one)
+	}
+	var first error
+	for range c.Cases {
+		if err := <-errs; err != nil && first == nil {
+			first = err
+		}
+	}
+	return first
+}
+
+func TestIPPConcurrent(t *testing.T) {
+	r := vlib.Open(prop)
+	var cc ippConcCase
+	if vlib.ReplayCase("TestIPPConcurrent", &cc) {
+		if err := checkIPPConcurrent(cc); err != nil {
+			r.Violation(t, "TestIPPConcurrent", cc, err.Error())
+		}
+		return
+	}
+	r.Rule("2..16 generated IPP requests (distinct request ids / versions / charsets) posted at the same time to the one ipp service instance; each client's reply must echo its own version, request id, charset and language and its event its own document")
+	r.Rapid(t, "TestIPPConcurrent", r.Pick(150, 2500), func(rt *rapid.T) {
+		n := rapid.IntRange(2, 16).Draw(rt, "n")
+		var c ippConcCase
+		for i := 0; i < n; i++ {
+			one := genIPP(rt)
+			one.ReqID = uint32(i+1)*1000003 + one.ReqID%1000
+			if one.DocLen > 4096 {
+				one.DocLen = one.DocLen % 4096
+			}
+			c.Cases = append(c.Cases, one)
+		}
+		r.Case("ipp/concurrent", vlib.JSON(c), func() interface{} { return map[string]interface{}{"requests": n} })
+		if err := checkIPPConcurrent(c); err != nil {
+			if strings.HasPrefix(err.Error(), "infra:") {
+				rt.Fatalf("%v", err)
+			}
+			r.Fail(rt, "TestIPPConcurrent", c, "%v", err)
+		}
+	})
+}
